@@ -85,7 +85,7 @@ def squeeze(text):
 
 
 # type-position macros the generated items may use (sessim/src/workload.rs TYPE_MACRO_DEFS), defined before every module
-TYPE_MACRO_DEFS = "macro_rules! Arr { ($t:ty, $n:expr) => { [$t; $n] }; } macro_rules! Same { ($t:ty) => { $t }; } macro_rules! Pair { ($a:ty, $b:ty) => { ($a, $b) }; }"
+TYPE_MACRO_DEFS = "pub struct A3Meters(pub u8); macro_rules! Arr { ($t:ty, $n:expr) => { [$t; $n] }; } macro_rules! Same { ($t:ty) => { $t }; } macro_rules! Pair { ($a:ty, $b:ty) => { ($a, $b) }; }"
 
 MACRO_ITEMS = [
     # (derive, macro body with $name / $v from the call site and tokens of its own, invocation arguments)
@@ -94,6 +94,10 @@ MACRO_ITEMS = [
     ("Unwrap", "($name:ident { $($v:ident),* }) => { #[derive(derive_more::Unwrap)] pub enum $name { $($v(i32),)* Rest(u8, u8) } }", "Probe { Alpha, Beta }"),
     ("Debug", "($name:ident { $($f:ident),* }) => { #[derive(derive_more::Debug)] pub struct $name { own: u8, $($f: i32,)* tail: bool } }", "Probe { alpha, beta }"),
     ("TryInto", "($name:ident { $($v:ident),* }) => { #[derive(derive_more::TryInto)] pub enum $name { $($v(i32),)* Wide(i64), Text(String) } }", "Probe { Alpha, Beta }"),
+    # tokens that exist only as tokens: `$crate` (a string round trip turns it into `$` `crate`)
+    ("From", "($name:ident) => { #[derive(derive_more::From)] pub struct $name(pub $crate::A3Meters); }", "Probe"),
+    ("Into", "($name:ident { $($f:ident),* }) => { #[derive(derive_more::Into)] pub struct $name { pub m: $crate::A3Meters, $(pub $f: u8,)* } }", "Probe { a }"),
+    ("IsVariant", "($name:ident) => { #[derive(derive_more::IsVariant)] pub enum $name { Far($crate::A3Meters), Near } }", "Probe"),
 ]
 
 
@@ -101,10 +105,14 @@ def _is_item_key(k):
     return not isinstance(k, str)
 
 
+def is_macro(it):
+    return str(it.get("kind", "")).startswith("macro")
+
+
 def item_text(it, rend):
     """The item's tokens as written in this variant: the original text, or one of its alternative renderings
     (same tokens; other blanks and line breaks)."""
-    if it.get("kind") == "macro":
+    if is_macro(it):
         return "mk_%d!(%s);" % (it["id"], it["invoke"])
     k = rend.get(it["id"], 0) if rend else 0
     alts = it.get("renderings") or []
@@ -124,7 +132,7 @@ def crate_text(items, rend=None, macros_file=None, macro_pad=0, inc_prefix=None)
     ind = "\t" if "tabs" in style else "    "
     # a leading comment of seeded length shifts every byte offset in the file
     L = ["#![allow(warnings)] " + TYPE_MACRO_DEFS + " //" + "x" * rend.get("file_pad", 0)]
-    macs = [it for it in items if it.get("kind") == "macro"]
+    macs = [it for it in items if is_macro(it)]
     mtext = None
     if macs:
         L.append('#[macro_use] #[path = "%s"] mod macro_defs;' % macros_file)
@@ -138,14 +146,14 @@ def crate_text(items, rend=None, macros_file=None, macro_pad=0, inc_prefix=None)
     for it in items:
         first = len(L) + 1
         L.append("mod case_%d {" % it["id"])
-        if it["id"] in included and it.get("kind") != "macro":
+        if it["id"] in included and not is_macro(it):
             f = "%s_%d.rs" % (inc_prefix, it["id"])
             body = ["//" + "y" * (it["id"] % 7)] * (it["id"] % 5) + ["#[derive(derive_more::%s)]" % it["derive"]] + item_text(it, rend).split("\n")
             incs[f] = "\n".join(body) + "\n"
             L.append('%sinclude!("%s");' % (ind, f))
             ranges.append((f, 1, len(body) + 1, it["id"]))
         else:
-            if it.get("kind") != "macro":
+            if not is_macro(it):
                 L.append(ind + "#[derive(derive_more::%s)]" % it["derive"])
             L.extend((ind + item_text(it, rend)).split("\n"))
         L.append("}")
@@ -266,6 +274,8 @@ def pick_items(keys, rng, n_harvest):
         items.append({"derive": h["derive"], "item": h["item"], "renderings": h.get("renderings", []), "kind": "harvested"})
     for d, body, inv in MACRO_ITEMS:
         items.append({"derive": d, "item": "macro_rules! mk { %s }  mk!(%s);" % (body, inv), "macro": body, "invoke": inv, "renderings": [], "kind": "macro"})
+    # every macro-produced item twice: the second invocation hands the derive a token-identical input
+    items += [dict(it, kind="macro-repeat") for it in items if it["kind"] == "macro"]
     # every fault item twice (separate modules): whatever an expansion leaves behind when it fails
     # meets the very same failure again
     items += [dict(it, kind="fault-repeat") for it in items if it["kind"] == "fault"]
@@ -310,7 +320,7 @@ def variant_plan(rng, items, v, env_names=()):
     if rng.below(3) == 0:
         rend["edition"] = ["2018", "2024"][rng.below(2)]
     if rng.below(3) == 0:
-        rend["include"] = [it["id"] for it in order if it.get("kind") != "macro" and rng.below(2)]
+        rend["include"] = [it["id"] for it in order if not is_macro(it) and rng.below(2)]
     return {"v": v, "order": [it["id"] for it in order], "entropy": entropy, "junk": junk, "rend": rend}
 
 
